@@ -9,7 +9,8 @@ def sig(t, step, clause):
     stage = "parse" if p["parsed"] != "ok" else ("ser" if p["ser"] != "ok" else ("reparse" if p["reparse"] != "ok" else "reser"))
     exc = {"parse": p["parsed"], "ser": p["ser"], "reparse": p["reparse"], "reser": p["reser"]}[stage]
     if clause == "ReturnsInBoundedTime":
-        what = a.get("opener", "") + "/" + a.get("ctx", "") if a["kind"] == "nest" else (a["kind"] + ":" + a.get("name", "") + ":" + a.get("shape", "") if a["kind"] == "propvalue" else a["kind"])
+        what = a.get("opener", "") + "/" + a.get("ctx", "") if a["kind"] == "nest" else (a["kind"] + ":" + a.get("name", "") + ":" + a.get("shape", "") if a["kind"] == "propvalue" else
+                "longrun:%s:%s:%s" % (a["opener"], a["body"], a["end"]) if a["kind"] == "longrun" else a["kind"])
         return "C01|Soup|%s|%s" % (clause, what)
     return "C01|Soup|%s|%s|%s@%s" % (clause, stage, exc, p.get("where", ""))
 
@@ -25,7 +26,7 @@ def corrupt(t):
 def sheets(tier, seed):
     rng = random.Random(seed)
     rows = []
-    for path in sorted(glob.glob("/repo/sheets/*.css")):
+    for path in sorted(glob.glob(__import__("os").environ.get("VERIF_REPO", "/repo") + "/sheets/*.css")):
         data = open(path, "rb").read()
         text = data.decode("utf-8", "replace")
         rows.append({"kind": "file", "name": path.rsplit("/", 1)[-1], "text": text[:6000], "entry": "string", "ctx": "sheet"})
@@ -41,7 +42,7 @@ def sheets(tier, seed):
 def main(tier, seed):
     run = Run("C01", tier, seed)
     import os, sys
-    sys.path.insert(0, "/repo")
+    sys.path.insert(0, __import__("os").environ.get("VERIF_REPO", "/repo"))
     import cssutils.profiles
     names = sorted({n for g in cssutils.profiles.properties for n in cssutils.profiles.properties[g]})
     if tier == "quick":
